@@ -365,9 +365,11 @@ def main():
         # ---------------- call order / requested shapes / key discipline (v)
         normals = [e for e in r["log"] if e[0] == "normal"]
         want_shape = {"dense": [n], "iso": [n, c["d"]], "blockdiag": [c["d"], n]}[kind]
-        if len(normals) != T or any(e[2] != want_shape for e in normals):
+        layout_ok = all(e[2] == want_shape for e in normals)
+        if len(normals) != T or not layout_ok:
             ck.report(sig("shape"), f"random.normal called {len(normals)} times with shapes {[e[2] for e in normals][:4]}; expected {T} calls of shape {want_shape}", replay)
-            continue
+            if len(normals) != T:
+                continue
         used = [tuple(e[1]) for e in r["log"]]
         if len(set(used)) != len(used):
             dup = next(k for k in used if used.count(k) > 1)
@@ -421,7 +423,7 @@ def main():
         units = np.array(r["units"])
         D = r["D"]
         M = units - S0[None]
-        for zi, z in enumerate(c["zr"]):
+        for zi, z in enumerate(c["zr"] if len(r["sz"]) == len(c["zr"]) else []):
             zf = np.array([float(x) for x in z])
             pred = S0 + np.tensordot(zf, M, axes=(0, 0))
             got = np.array(r["sz"][zi])
@@ -468,8 +470,8 @@ def main():
                     s_ = np.maximum(s_, 1e-7 * max(s_.max(), 1e-300))
                     if not np.all(np.abs(cu - covs[k]) <= 1e-7 * np.outer(s_, s_) + 1e-300):
                         ck.report("C13.from_grid", f"{kind}: evaluate_marginals() covariance at grid point {k} differs from A Cov A^T + Q", replay)
-        # ---------------- model terms (ii)
-        for a in range(nb):
+        # ---------------- model terms (ii) (only if the draws have the layout the model assumes)
+        for a in range(nb if layout_ok else 0):
             inp = block_inputs(r, a)
             rev = lib.coq_bool(r["reverse"])
             if n ** 3 * cc * T ** 2 <= FULL_COST:
